@@ -205,7 +205,7 @@ func runC09(c *Check) {
 			if nNil == 0 {
 				c.Unk("C09-R2", fnShort(step)+" ⟂ nil-returns", sfn, "", "anchor lost: the step has no nil return")
 			}
-			ruleBlobDispatch(c, p, step, sg)
+			ruleBlobDispatch(c, p, step, nil)
 		}
 	}
 	c.MinInstances("C09-R2", 4)
@@ -348,40 +348,41 @@ func joinedErrorNonNil(v ssa.Value, fetchFn *ssa.Function) (bool, string) {
 }
 
 // ruleBlobDispatch (C09-R4).
-func ruleBlobDispatch(c *Check, p *Prog, step *ssa.Function, g *Graph) {
+func ruleBlobDispatch(c *Check, p *Prog, step *ssa.Function, _ *Graph) {
 	fn := fnName(step)
+	// expand helpers of the step (the dispatch loop may live in one) but keep the two blob handlers as leaves
+	isHandler := func(f *ssa.Function) bool {
+		for _, b := range f.Blocks {
+			for _, in := range b.Instrs {
+				if call, ok := in.(*ssa.Call); ok {
+					n := commonName(call.Common())
+					if strings.HasSuffix(n, "types.SignedHeader).FromProto") || strings.HasSuffix(n, "types.SignedData).UnmarshalBinary") {
+						return true
+					}
+				}
+			}
+		}
+		return false
+	}
+	g := BuildECFG(p, step, ExpandOpts{MaxDepth: 2, Stop: isHandler})
+	c.NoteGraph(g)
 	calleeContains := func(n *Node, name string) bool {
 		cc := CallCommonOf(n)
 		if cc == nil || cc.StaticCallee() == nil || !p.Expandable(cc.StaticCallee()) {
 			return false
 		}
-		found := false
-		var visit func(f *ssa.Function, d int)
-		seen := map[*ssa.Function]bool{}
-		visit = func(f *ssa.Function, d int) {
-			if found || seen[f] || d > 3 {
-				return
-			}
-			seen[f] = true
-			for _, b := range f.Blocks {
-				for _, in := range b.Instrs {
-					if call, ok := in.(*ssa.Call); ok {
-						if strings.HasSuffix(commonName(call.Common()), name) {
-							found = true
-						}
-						if cal := call.Common().StaticCallee(); cal != nil && p.Expandable(cal) {
-							visit(cal, d+1)
-						}
-					}
+		for _, b := range cc.StaticCallee().Blocks {
+			for _, in := range b.Instrs {
+				if call, ok := in.(*ssa.Call); ok && strings.HasSuffix(commonName(call.Common()), name) {
+					return true
 				}
 			}
 		}
-		visit(cc.StaticCallee(), 0)
-		return found
+		return false
 	}
-	hdrH := g.Select(func(n *Node) bool { return n.Ctx.Depth == 0 && calleeContains(n, "types.SignedHeader).FromProto") })
+	hdrH := g.Select(func(n *Node) bool { return calleeContains(n, "types.SignedHeader).FromProto") })
 	dataH := g.Select(func(n *Node) bool {
-		return n.Ctx.Depth == 0 && calleeContains(n, "types.SignedData).UnmarshalBinary") && !calleeContains(n, "types.SignedHeader).FromProto")
+		return calleeContains(n, "types.SignedData).UnmarshalBinary") && !calleeContains(n, "types.SignedHeader).FromProto")
 	})
 	if len(hdrH) != 1 || len(dataH) != 1 {
 		c.Unk("C09-R4", fnShort(step)+" ⟂ handlers", fn, "", fmt.Sprintf("anchor lost: %d header-handler and %d data-handler call sites", len(hdrH), len(dataH)))
@@ -392,7 +393,8 @@ func ruleBlobDispatch(c *Check, p *Prog, step *ssa.Function, g *Graph) {
 		c.Unk("C09-R4", fnShort(step)+" ⟂ blob-loop", fn, "", "anchor lost: the header handler is not called in a loop over the blobs")
 		return
 	}
-	head := g.headNode(g.RootCtx, hb)
+	loopCtx := hdrH[0].Ctx
+	head := g.headNode(loopCtx, hb)
 	// the blob handed over is the ranged element of the fetched Data
 	bz := ArgTerm(hdrH[0], 2)
 	if bz != nil && strings.Contains(bz.String(), ".Data[") {
@@ -407,7 +409,7 @@ func ruleBlobDispatch(c *Check, p *Prog, step *ssa.Function, g *Graph) {
 	// body entry: the true edge of the loop header's If (range next ok)
 	var bodyEntry []*Node
 	if ifi, ok := hb.Instrs[len(hb.Instrs)-1].(*ssa.If); ok {
-		bodyEntry = g.Select(func(n *Node) bool { return n.Kind == NTrue && n.In == ssa.Instruction(ifi) && n.Ctx == g.RootCtx })
+		bodyEntry = g.Select(func(n *Node) bool { return n.Kind == NTrue && n.In == ssa.Instruction(ifi) && n.Ctx == loopCtx })
 	}
 	if len(bodyEntry) == 0 {
 		c.Unk("C09-R4", fnShort(step)+" ⟂ blob-loop", fn, "", "cannot find the loop body entry")
